@@ -5,6 +5,8 @@ type nat =
 | O
 | S of nat
 
+val option_map : ('a1 -> 'a2) -> 'a1 option -> 'a2 option
+
 val fst : ('a1 * 'a2) -> 'a1
 
 val snd : ('a1 * 'a2) -> 'a2
@@ -22,20 +24,36 @@ val compOpp : comparison -> comparison
 
 val add : nat -> nat -> nat
 
+val sub : nat -> nat -> nat
+
 module Nat :
  sig
   val eqb : nat -> nat -> bool
+
+  val leb : nat -> nat -> bool
+
+  val ltb : nat -> nat -> bool
  end
 
 val nth : nat -> 'a1 list -> 'a1 -> 'a1
+
+val nth_error : 'a1 list -> nat -> 'a1 option
 
 val rev : 'a1 list -> 'a1 list
 
 val rev_append : 'a1 list -> 'a1 list -> 'a1 list
 
+val map : ('a1 -> 'a2) -> 'a1 list -> 'a2 list
+
+val fold_left : ('a1 -> 'a2 -> 'a1) -> 'a2 list -> 'a1 -> 'a1
+
+val filter : ('a1 -> bool) -> 'a1 list -> 'a1 list
+
 val firstn : nat -> 'a1 list -> 'a1 list
 
 val skipn : nat -> 'a1 list -> 'a1 list
+
+val repeat : 'a1 -> nat -> 'a1 list
 
 type positive =
 | XI of positive
@@ -96,6 +114,14 @@ module Coq_Pos :
 
   val eqb : positive -> positive -> bool
 
+  val coq_Nsucc_double : n -> n
+
+  val coq_Ndouble : n -> n
+
+  val coq_land : positive -> positive -> n
+
+  val coq_lxor : positive -> positive -> n
+
   val iter_op : ('a1 -> 'a1 -> 'a1) -> positive -> 'a1 -> 'a1
 
   val to_nat : positive -> nat
@@ -132,6 +158,10 @@ module N :
   val div : n -> n -> n
 
   val modulo : n -> n -> n
+
+  val coq_land : n -> n -> n
+
+  val coq_lxor : n -> n -> n
 
   val to_nat : n -> nat
 
@@ -267,6 +297,8 @@ val s_err : str
 
 val s_bad : str
 
+val s_none : str
+
 val s_utc : str
 
 val str_eqb : str -> str -> bool
@@ -314,8 +346,263 @@ val run_enc : str list -> str
 
 val run_dec : str list -> str
 
+val fnv_prime : n
+
+val mask64 : n
+
+val fnv_step : n -> n -> n
+
+val fnv_add : n -> bytes -> n
+
+val fnv_add_u64 : n -> n -> n
+
+val extensionMagicPrefix : n
+
+type entry = { e_index : n; e_term : n; e_type : n; e_data : bytes;
+               e_ext : bytes }
+
+val log_configuration : n
+
+val is_bootstrap : entry -> bool
+
+val checksum_log : n -> entry -> n
+
+val encode_meta : n -> n -> bytes
+
+type meta_res =
+| MetaOk of n * n
+| MetaErr
+
+val decode_meta : bytes -> meta_res
+
+val set_ext : entry -> bytes -> entry
+
+type sstore = { s_first : n; s_logs : entry list }
+
+val s_empty : sstore
+
+val first_index : sstore -> n
+
+val last_index : sstore -> n
+
+val get : sstore -> n -> entry option
+
+val contig_from : n -> entry list -> bool
+
+val store_logs : sstore -> entry list -> sstore option
+
+val delete_range : sstore -> n -> n -> sstore option
+
+val set_nth : 'a1 list -> nat -> 'a1 -> 'a1 list
+
+val tamper : sstore -> n -> entry -> sstore
+
+type errkind =
+| ENone
+| ECkInflight
+| ECkStorage
+| ERange
+| EOther
+
+type report = { r_start : n; r_end : n; r_expected : n; r_written : n;
+                r_read : n; r_err : errkind; r_skipped : (n * n) option }
+
+val set_err : report -> errkind -> report
+
+val set_read : report -> n -> report
+
+val set_skipped : report -> (n * n) option -> report
+
+type vstate = { v_sum : n; v_start : n }
+
+val v_init : vstate
+
+type uvs_res =
+| UvsErr
+| UvsOk of n * n * report option * entry
+
+val new_report : n -> n -> n -> n -> report
+
+val update_verify_state : (entry -> bool option) -> entry -> n -> n -> uvs_res
+
+val opt_list : 'a1 option -> 'a1 list
+
+val uvs_loop :
+  (entry -> bool option) -> entry list -> n -> n -> (((n * n) * report
+  list) * entry list) option
+
+type sres =
+| SOk
+| SErrVfy
+| SErrStore
+
+type store_out = { o_res : sres; o_v : vstate; o_store : sstore;
+                   o_reports : report list; o_batch : entry list;
+                   o_called : bool }
+
+val vstore_logs :
+  (entry -> bool option) -> bool -> vstate -> sstore -> entry list ->
+  store_out
+
+val vdelete_range : vstate -> sstore -> n -> n -> (bool * vstate) * sstore
+
+val read_range : sstore -> n -> nat -> n -> n option
+
+val verify : sstore -> report -> report
+
+type treport = report * report list
+
+type vchan = { c_pending : report list; c_ch : treport option;
+               c_inprog : treport option; c_last : n;
+               c_delivered : treport list; c_dropped : n; c_written : 
+               n; g_drops : report list }
+
+val c_init : vchan
+
+val ch_push : vchan -> report list -> vchan
+
+val ch_send : vchan -> vchan
+
+val skipped_of : n -> n -> (n * n) option
+
+val ch_recv : sstore -> vchan -> vchan
+
+val ch_return : vchan -> vchan
+
+val ch_quiescent : vchan -> bool
+
+val ch_restart : vchan -> vchan
+
+type node = { n_v : vstate; n_store : sstore; n_shadow : sstore;
+              n_fail : bool; n_c : vchan }
+
+val node_init : node
+
+val with_c : node -> vchan -> node
+
+val node_store :
+  (entry -> bool option) -> node -> entry list -> (sres * node) * report list
+
+val node_delete : node -> n -> n -> bool * node
+
+val node_restart : node -> node
+
+val node_tamper : node -> n -> entry -> node
+
+val node_arm_fail : node -> node
+
+type event =
+| HStore of nat * entry list
+| HDelete of nat * n * n
+| HRestart of nat
+| HTamper of nat * n * entry
+| HFail of nat
+| HSend of nat
+| HRecv of nat
+| HReturn of nat
+
+val ev_node : event -> nat
+
+val node_step : (entry -> bool option) -> node -> event -> node
+
+val upd_nth : node list -> nat -> (node -> node) -> node list
+
+type sys = node list
+
+val sys_init : nat -> sys
+
+val node_at : sys -> nat -> node
+
+val step : (entry -> bool option) -> sys -> event -> sys
+
+val run_cpf : entry -> bool option
+
+val bar : n
+
+val groups_aux : str list -> str list -> str list list
+
+val groups : str list -> str list list
+
+type rstate = { rs_sys : sys; rs_blocked : bool list }
+
+val blocked_at : rstate -> nat -> bool
+
+val set_nth_b : bool list -> nat -> bool -> bool list
+
+val do_ev : rstate -> event -> rstate
+
+val settle : nat -> rstate -> nat -> rstate
+
+val sends : nat -> rstate -> nat -> rstate
+
+val s_ev : str
+
+val s_es : str
+
+val s_er : str
+
+val s_nf : str
+
+val s_no : str
+
+val s_rc : str
+
+val show_sres : sres -> str
+
+val count_cp : entry list -> nat
+
+val do_store : rstate -> nat -> entry list -> rstate * str
+
+val parse_nat : str -> nat option
+
+val parse_entries : nat -> str list -> (entry list * str list) option
+
+val xor_at : bytes -> n -> n -> bytes
+
+val mk_entry : n -> n -> n -> bytes -> bytes -> entry
+
+val k1 : n -> str
+
+val k2 : n -> n -> str
+
+val apply_mut : entry -> str -> str -> str -> entry option
+
+type mutation = { m_idx : n; m_kind : str; m_a : str; m_b : str }
+
+val parse_muts : nat -> str list -> (mutation list * str list) option
+
+val mutate_at : mutation list -> n -> entry -> entry option
+
+val parse_nats : str list -> nat list option
+
+val read_mut : sstore -> mutation list -> n -> nat -> entry list option option
+
+val replicate :
+  nat -> rstate -> nat -> entry list -> nat list -> rstate * str list
+
+val join_with : n -> str list -> str
+
+val show_entry : entry -> str
+
+val run_op : rstate -> str list -> (rstate * str) option
+
+val run_ops :
+  rstate -> str list list -> str list -> (rstate * str list) option
+
+val show_err : errkind -> str
+
+val show_report : report -> str
+
+val show_node : node -> str
+
+val release_all : rstate -> nat -> nat -> rstate
+
+val run_vfy : str list -> str
+
 val k_enc : str
 
 val k_dec : str
+
+val k_vfy : str
 
 val run_line : str -> str
